@@ -14,7 +14,7 @@ from . import sast as A
 
 INT, BOOL, STR, NULL = "int", "bool", "str", "null"
 
-STR_POOL = ["", "a", "abc", "hello world", "é", "x✓y", "😀", "a\nb", "tab\there", "q\"uote", "do$llar",
+STR_POOL = ["", "a", "abc", "hello world", "é", "x✓y", "😀", "a\nb", "line one\nline two\n\nlast é", "xy\nz\n", "\n\n", "tab\there", "q\"uote", "do$llar",
             "back\\slash", "{brace}", "#hash", "semi;colon", "  spaced  ", "A", "Z9_"]
 KEY_POOL = ["a", "b", "c", "k", "key", "A", "x y", "é", "", "z9", "_p"]
 IDENT_KEYS = {"a", "b", "c", "k", "key", "A", "z9", "_p"}
@@ -79,6 +79,7 @@ class Gen:
             self.fail_at = self.r.randrange(1, max(2, size))
         self.features = set()
         self.stmt_no = 0
+        self.no_calls = 0     # >0 while generating an operand whose evaluation order / short-circuiting is not specified
 
     # ------------------------------------------------------------------ names
     def fresh(self, prefix="v"):
@@ -126,7 +127,7 @@ class Gen:
             return A.Var(r.choice(cands))
         # calls to known functions returning t
         fns = [(n, ty) for n, ty in ctx.vars_kind("fn") if ty[2] == t]
-        if fns and not deep and r.random() < 0.2:
+        if fns and not deep and not self.no_calls and r.random() < 0.2:
             n, ty = r.choice(fns)
             self.feat("call")
             return A.Call(A.Var(n), [(self.expr(pt, ctx, d + 1), False) for pt in ty[1]])
@@ -172,6 +173,15 @@ class Gen:
             return A.Prop(A.Var(o[1]), o[2], False)
         return A.Index(A.Var(o[1]), A.Str(o[2]))
 
+    def rhs(self, t, ctx, d):
+        """Right-hand operand of a binary operator: no user-function calls (the order in which the two
+        operands are evaluated, and whether `&&`/`||` skip the second one, is not specified)."""
+        self.no_calls += 1
+        try:
+            return self.expr(t, ctx, d)
+        finally:
+            self.no_calls -= 1
+
     def int_expr(self, ctx, d, deep):
         r = self.r
         x = r.random()
@@ -180,7 +190,7 @@ class Gen:
         if x < 0.6:
             op = r.choice(["+", "-", "+", "-", "*"])
             a = self.expr(INT, ctx, d + 1)
-            b = self.expr(INT, ctx, d + 1) if op != "*" else A.Int(r.randrange(-3, 4))
+            b = self.rhs(INT, ctx, d + 1) if op != "*" else A.Int(r.randrange(-3, 4))
             e = A.Bin(op, a, b)
             if r.random() < 0.5:
                 e = A.Bin("%", e, A.Int(r.choice([7, 10, 100, 1000, -13])))
@@ -200,13 +210,13 @@ class Gen:
         if deep or x < 0.2:
             return A.Bool(r.random() < 0.5)
         if x < 0.5:
-            return A.Bin(r.choice(["<", "<=", ">", ">=", "==", "!="]), self.expr(INT, ctx, d + 1), self.expr(INT, ctx, d + 1))
+            return A.Bin(r.choice(["<", "<=", ">", ">=", "==", "!="]), self.expr(INT, ctx, d + 1), self.rhs(INT, ctx, d + 1))
         if x < 0.65:
-            return A.Bin(r.choice(["&&", "||"]), self.expr(BOOL, ctx, d + 1), self.expr(BOOL, ctx, d + 1))
+            return A.Bin(r.choice(["&&", "||"]), self.expr(BOOL, ctx, d + 1), self.rhs(BOOL, ctx, d + 1))
         if x < 0.8:
             t = self.rand_type(1)
             self.feat("eq")
-            return A.Bin(r.choice(["==", "!="]), self.expr(t, ctx, d + 1), self.expr(t, ctx, d + 1))
+            return A.Bin(r.choice(["==", "!="]), self.expr(t, ctx, d + 1), self.rhs(t, ctx, d + 1))
         if x < 0.9:
             cands = ctx.vars_kind("list") + ctx.vars_kind("obj")
             if cands:
@@ -214,7 +224,7 @@ class Gen:
                 others = [m for m, ty2 in cands if kind(ty2) == kind(ty)]
                 self.feat("refeq")
                 return A.Bin(r.choice(["===", "!=="]), A.Var(n), A.Var(r.choice(others)))
-        return A.Bin("==", self.expr(STR, ctx, d + 1), self.expr(STR, ctx, d + 1))
+        return A.Bin("==", self.expr(STR, ctx, d + 1), self.rhs(STR, ctx, d + 1))
 
     def str_expr(self, ctx, d, deep):
         r = self.r
@@ -222,7 +232,7 @@ class Gen:
         if deep or x < 0.35:
             return self.str_lit()
         if x < 0.55:
-            return A.Bin("+", self.expr(STR, ctx, d + 1), self.expr(STR, ctx, d + 1))
+            return A.Bin("+", self.expr(STR, ctx, d + 1), self.rhs(STR, ctx, d + 1))
         if x < 0.65:
             lit = r.choice(["abc", "hello", "xyz12"])
             base = A.Bin("+", A.Str(lit), self.expr(STR, ctx, d + 1))
@@ -280,7 +290,7 @@ class Gen:
         if n > 0 and x < 0.3 and not deep:
             k = r.randrange(0, n + 1)
             self.feat("concat")
-            return A.Bin("+", self.expr(tlist(elem, k), ctx, d + 1), self.expr(tlist(elem, n - k), ctx, d + 1))
+            return A.Bin("+", self.expr(tlist(elem, k), ctx, d + 1), self.rhs(tlist(elem, n - k), ctx, d + 1))
         if x < 0.4 and not deep:
             cands = [(m, ty) for m, ty in ctx.vars_kind("list") if ty[1] == elem and ty[2] >= n]
             if cands:
